@@ -1110,7 +1110,7 @@ func TestPropCallsArity1(t *testing.T) {
 	})
 }
 
-// Every callee with every ordered pair of pool values (thorough: complete; quick: a seeded 1/200 slice).
+// Every callee with ordered pairs of pool values (thorough: every pair for the operator callees, a seeded sixth for the built-ins; quick: core pairs for the operators, seeded slices otherwise).
 func TestPropCallsArity2(t *testing.T) {
 	defer worker.Recycle()
 	if err := loadCallees(); err != nil {
